@@ -46,8 +46,9 @@ ASSUMPTIONS = [
     "a return of that behaviour is reported with site Calculator._calculate_compliances:allclose-filter-drops-needed-compliance",
     "the name-lookup model covers names that REACH __getattr__ (no class attribute / instance attribute of that name); Python's `$` also "
     "matches before one trailing newline: modelled, and exercised by the lookup stream",
-    "`s11t` (compliance with suffix t) is served from the adiabatic compliances: the source's test `res.group(1) == 't'` can never hold; "
-    "modelled as the code is (theorem calc_glue_is_source_lookup_dispatch), the harness's own oracle abstains on s-names with suffix t",
+    "`sIJt` / `s_IJt` / `sijklt` (compliance under the isothermal name): AttributeError since the repair of `__getattr__` (s-branch tests "
+    "group(3)); the oracle accepts any exception or the inverse of the isothermal stiffness `cIJt`, and reports the adiabatic compliance "
+    "under that name with site c07:lookup:sIJt-returns-adiabatic-compliance (the behaviour before the repair)",
     "a second Calculator that cannot be CONSTRUCTED while another exists, although a fresh interpreter processes the same data set, is "
     "reported as 'not reported for a positive-definite stiffness' (site history:two-real-calculators)",
 ]
@@ -67,6 +68,9 @@ RY_KG_KM2_S2 = RY_J * 1e-6          # 1 Ry in kg km^2 / s^2
 VOIGT = {1: (1, 1), 2: (2, 2), 3: (3, 3), 4: (2, 3), 5: (1, 3), 6: (1, 2)}   # documented map (oracle's own copy)
 ORTHO9 = [(1, 1), (2, 2), (3, 3), (1, 2), (2, 3), (1, 3), (4, 4), (5, 5), (6, 6)]
 SITE_FILTER = "Calculator._calculate_compliances:allclose-filter-drops-needed-compliance"
+SITE_SIJT = "c07:lookup:sIJt-returns-adiabatic-compliance"
+CLAUSE_SIJT = "sIJt-returns-adiabatic-compliance"
+ISO_FACTOR = 0.93          # stub calculators: isothermal tensor = 0.93 x adiabatic tensor (distinct numbers, same pattern)
 
 EXTRA = {
     "orthorhombic": [], "cubic": [], "hexagonal": [], "tetragonal6": [],
@@ -263,7 +267,7 @@ def make_stub(case):
         stub.elast_data = types.SimpleNamespace(cellmass=float(case["cellmass"]))
     stub.modulus_adiabatic = dict(zip(keys, fields))
     # isothermal tensor: distinct numbers (adiabatic minus 7 %), so that a mix-up of the two is visible
-    stub.modulus_isothermal = {k: 0.93 * f for k, f in zip(keys, fields)}
+    stub.modulus_isothermal = {k: ISO_FACTOR * f for k, f in zip(keys, fields)}
     return stub, keys, fields
 
 
@@ -283,6 +287,23 @@ def compute_compliances(stub, out):
 def read_quantity(vb, attr):
     with numpy.errstate(all="ignore"):
         return numpy.array(getattr(vb, attr), dtype=float)        # a copy: later reads cannot change it
+
+
+_STD = {1: "11", 2: "22", 3: "33", 4: "23", 5: "13", 6: "12"}
+
+
+def read_sijt(vb, keys):
+    """the compliance names with the ISOTHERMAL suffix, every spelling, for a few index pairs: array, or the name of the exception"""
+    out = {}
+    pairs = [(1, 1), (1, 2), (2, 3), (4, 4), (6, 6)] + [tuple(int(x) for x in k) for k in keys[:3]]
+    for (i, j) in dict.fromkeys(pairs):
+        for name in (f"s{i}{j}t", f"s_{i}{j}t", f"s{j}{i}t", "s" + _STD[i] + _STD[j] + "t"):
+            try:
+                with numpy.errstate(all="ignore"):
+                    out[name] = [i, j, numpy.array(getattr(vb, name), dtype=float)]
+            except Exception as e:
+                out[name] = [i, j, type(e).__name__]
+    return out
 
 
 def run_impl(case):
@@ -337,6 +358,7 @@ def run_impl(case):
             except Exception as e:
                 wrong.append(f"{name}:{type(e).__name__}")
     out["wrong_lookup"] = wrong
+    out["sijt"] = read_sijt(vb, case["keys"])
     return out
 
 
@@ -498,6 +520,34 @@ def oracle(case, impl, consts):
     slack = 1e-9 + 6.0 * float(numpy.max(numpy.abs(C6))) * 1e-8 * (len(compl) < 21)
     if e4 > slack or e6 > slack:
         fails.append(("C_ijkl S_klmn = (d_im d_jn + d_in d_jm)/2", {"max_dev_4th_rank": e4, "max_dev_6x6": e6}, f"<= {slack:.2e}"))
+    # a compliance reported under the ISOTHERMAL name (sIJt, s_IJt, sijklt) is the inverse of the isothermal stiffness cIJt — or nothing is
+    # reported under that name (any exception)
+    sijt = impl.get("sijt") or {}
+    if sijt:
+        iso = case.get("iso_fields")
+        cd_iso = {tuple(sorted(k)): (numpy.array(f, dtype=float) if iso is not None else ISO_FACTOR * numpy.array(g, dtype=float))
+                  for k, f, g in zip(case["keys"], iso if iso is not None else case["fields"], case["fields"])}
+        C6i = numpy.zeros((nt, nv, 6, 6))
+        for p, q in itertools.product(range(1, 7), repeat=2):
+            key = (min(p, q), max(p, q))
+            if key in cd_iso: C6i[:, :, p - 1, q - 1] = cd_iso[key]
+        ok_pts = pdm & numpy.isfinite(C6i).all(axis=(-1, -2))
+        ok_pts &= numpy.array([[abs(numpy.linalg.det(C6i[t, v])) > 0 if ok_pts[t, v] else False for v in range(nv)] for t in range(nt)])
+        if ok_pts.any():
+            C6i[~ok_pts] = numpy.eye(6)
+            S6i = numpy.linalg.inv(C6i)
+            sc_i = float(numpy.max(numpy.abs(S6i[ok_pts])))
+            for name, (i, j, got) in sorted(sijt.items()):
+                if isinstance(got, str): continue                                 # nothing reported under this name
+                if got.shape != (nt, nv):
+                    fails.append(("sIJt-wrong-array", {"name": name, "shape": list(got.shape)}, [nt, nv])); break
+                want = S6i[:, :, i - 1, j - 1]
+                if family_close(got[ok_pts], want[ok_pts], rtol=1e-9, scale=sc_i)[0]: continue
+                adia = family_close(got[ok_pts], S6[:, :, i - 1, j - 1][ok_pts], rtol=1e-9, scale=sc_i)[0]
+                fails.append((CLAUSE_SIJT if adia else "sIJt-wrong-array",
+                              {"name": name, "returned": got.tolist(), "entry_of_inverse_of_adiabatic_stiffness": S6[:, :, i - 1, j - 1].tolist()},
+                              {"entry_of_inverse_of_isothermal_stiffness": want.tolist(), "or": "AttributeError"}))
+                break
     # velocities: rho v^2 identities in SI-derived units, CODATA constants typed in above
     V = numpy.array(case["v"], dtype=float)[None, :]
     rho = case["cellmass"] * 1e-3 / (N_A * V)                       # kg / bohr^3
@@ -514,6 +564,7 @@ def oracle(case, impl, consts):
 
 
 def site_of(clause):
+    if clause == CLAUSE_SIJT: return SITE_SIJT
     return SITE_FILTER if clause == "filter-dropped" else "C07:" + clause
 
 
@@ -813,6 +864,12 @@ def lookup_stream(ctx, rng, res, n_objects, n_names):
                 else: stats["key_not_in_modulus_keys"] += 1
             elif suf != "t" and key in compl_keys:
                 exp = ["_compliances", key]
+            elif pre == "s" and suf == "t" and isinstance(im, list) and im[0] == "_compliances":
+                # `_compliances` is the inverse of the ADIABATIC stiffness (Generated complSpec.store): not to be reported under the isothermal name
+                fails.append(OracleFailure(
+                    what=f"attribute {nm!r} (isothermal name) returns the adiabatic compliance {im_c}",
+                    input=dict(payload, names=[nm]), observed=jsonable(im), expected="AttributeError, or the inverse of the isothermal stiffness",
+                    site=SITE_SIJT))
             if exp is not None and im_c != exp:
                 fails.append(OracleFailure(
                     what=f"attribute {nm!r} is served from {im_c} instead of {exp}",
@@ -847,11 +904,16 @@ def lookup_replay(payload):
         exp = None
         if pre == "c" and key in mk: exp = ["modulus_isothermal" if suf == "t" else "modulus_adiabatic", key]
         elif pre == "s" and suf != "t" and key in ck: exp = ["_compliances", key]
-        if exp is None: continue
         try:
             got = getattr(vb, nm); im = [tag[id(got)][0], tag[id(got)][1]] if id(got) in tag else "untagged-object"
         except Exception as e:
             im = type(e).__name__
+        if pre == "s" and suf == "t":
+            if isinstance(im, list) and im[0] == "_compliances":
+                out.append(OracleFailure(what=f"attribute {nm!r} (isothermal name) returns the adiabatic compliance {im}", input=payload,
+                                         observed=jsonable(im), expected="AttributeError, or the inverse of the isothermal stiffness", site=SITE_SIJT))
+            continue
+        if exp is None: continue
         if im != exp:
             out.append(OracleFailure(what=f"attribute {nm!r} is served from {im} instead of {exp}", input=payload, observed=jsonable(im),
                                      expected=jsonable(exp), site="lookup:wrong-store-or-key"))
@@ -865,7 +927,8 @@ def case_from_calculator(calc, kind):
     return {"kind": kind, "system": "real", "keys": [list(k) for k in keys],
             "fields": [numpy.array(calc.modulus_adiabatic[k], dtype=float).tolist() for k in calc.modulus_keys], "nt": int(nt), "nv": int(nv),
             "v": numpy.array(calc.volume_base.v_array, dtype=float).tolist(), "t": numpy.array(calc.volume_base.t_array, dtype=float).tolist(),
-            "cellmass": float(calc.elast_data.cellmass), "pd": True}
+            "cellmass": float(calc.elast_data.cellmass), "pd": True,
+            "iso_fields": [numpy.array(calc.modulus_isothermal[k], dtype=float).tolist() for k in calc.modulus_keys]}
 
 
 def real_pair_failures(seed, index, consts, stats=None):
@@ -912,6 +975,7 @@ def real_pair_failures(seed, index, consts, stats=None):
                 if isinstance(im[name], str): continue
                 if not numpy.array_equal(read_quantity(calc.volume_base, attr), im[name], equal_nan=True): again.append(name)
             im["changed_on_reread"] = again
+            im["sijt"] = read_sijt(calc.volume_base, [])
             c = case_from_calculator(calc, f"real:{dss[n].settings['elast']['settings'].get('symmetry', {}).get('system')}")
             if stats is not None:
                 stats["calculators"] = stats.get("calculators", 0) + 1
@@ -934,7 +998,7 @@ def real_stream(ctx, res, consts, n_pairs):
             n, clause, obs, exp = rf[0]
             fails.append(OracleFailure(what=f"two real Calculators alive at once: {clause} fails for calculator {n}",
                                        input={"kind": "real-pair", "seed": ctx.seed, "index": index}, observed=obs, expected=exp,
-                                       site="history:two-real-calculators"))
+                                       site=SITE_SIJT if clause == CLAUSE_SIJT else "history:two-real-calculators"))
             break
     res.distribution["real_stream"] = stats
     return fails
@@ -1059,7 +1123,7 @@ def search(ctx: Ctx, res: Result):
                     n, clause, obs, exp = rf[0]
                     out.oracle_failures.append(OracleFailure(what=f"two real Calculators alive at once: {clause} fails for calculator {n}",
                                                              input={"kind": "real-pair", "seed": ctx.seed, "index": index}, observed=obs,
-                                                             expected=exp, site="history:two-real-calculators"))
+                                                             expected=exp, site=SITE_SIJT if clause == CLAUSE_SIJT else "history:two-real-calculators"))
                     break
         if out.oracle_failures: break
     return out.oracle_failures
@@ -1076,7 +1140,7 @@ def replay(ctx: Ctx, payload):
                               site="history:two-calculators") for which, cl, o, e in pair_failures(dict(a), dict(b), consts)]
     if kind == "real-pair":
         return [OracleFailure(what=f"two real Calculators alive at once: {cl} fails for calculator {n}", input=payload, observed=o, expected=e,
-                              site="history:two-real-calculators") for n, cl, o, e in real_pair_failures(payload["seed"], payload["index"], consts)]
+                              site=SITE_SIJT if cl == CLAUSE_SIJT else "history:two-real-calculators") for n, cl, o, e in real_pair_failures(payload["seed"], payload["index"], consts)]
     if kind == "orders":
         case = dict(payload, kind="spd")
         bad, _ = orders_failures(case, payload["sequence"])
